@@ -236,7 +236,7 @@ def check_pc_properties(A, L, piv, rank, tol, ftol):
             bad.append(("exact-at-n", f"member {i}: |A - L L^T| = {float(R.abs().max()):.3e} at r = n"))
     # stop rule (batch-wide): r is the first t >= 1 with max_b err_b(t) <= tol, capped by min(rank, n)
     cap = min(rank, n)
-    rel = lambda e: abs(e - tol) <= 1e-6 * max(tol, 1e-12) + 1e-13
+    rel = (lambda e: abs(e - tol) <= 1e-6 * max(tol, 1e-12) + 1e-13) if ftol < 1e-6 else (lambda e: abs(e - tol) <= 1e-2 * tol + 1e-5)
     for t in range(1, r):
         e = max(errs_at[i][t] for i in range(b) if errs_at[i][t] is not None)
         if e <= tol and not rel(e):
@@ -471,7 +471,10 @@ def generic_cases(chk, only, lines, handlers, viol, quick):
                 ranks = sorted(set([1, n, n + 1, chk.rng.randint(2, max(2, n - 1))])) if not quick else \
                     sorted(set([chk.rng.choice([1, 2]), chk.rng.choice([n - 1, n, n + 1])]))
                 for rank in ranks:
-                    for tname, tolv in (tols if not quick else [chk.rng.choice(tols)]):
+                    for tname, tolv in (tols if (not quick or only) else [chk.rng.choice(tols)]):
+                        if tname == "tight" and dtype == torch.float32:
+                            tolv = 1e-4   # "tight but positive" must stay above the working precision (float32 eps ~ 1e-7):
+                            # below it a singular operator never reaches the tolerance and pivots on rounding noise
                         cell = f"C10/pc/op/{it.name}[b={batch}|{str(dtype)[6:]}]/tol={tname}"
                         if only and only != cell:
                             continue
@@ -645,7 +648,7 @@ def precond_cases(chk, only, lines, handlers, viol, quick, dyn):
                 if dk == "diag-broadcast" and not kb:
                     continue
                 sizes = [(0, 0), (1, 0), (2, 0), (n, 0), (n + 3, 0), (None, 0), (2, n), (2, n + 1), (2, None)]
-                if quick:
+                if quick and not only:
                     sizes = [rng.choice(sizes[1:6]), rng.choice([sizes[0]] + sizes[6:])]
                 for (mx, mn) in sizes:
                     ptol = rng.choice([None, 1e-9, 0.5, 0.05])
